@@ -150,90 +150,6 @@ end Stef.Otlp
 
 namespace Stef.Otlp
 
-/-! ### sorting keeps the batch clean -/
-
-theorem all_of_perm {α : Type} {p : α → Bool} {l l' : List α} (h : l.Perm l') (hl : l'.all p = true) : l.all p = true := by
-  rw [List.all_eq_true] at hl ⊢
-  intro x hx
-  exact hl x (h.mem_iff.mp hx)
-
-theorem mergeScopes_clean (x y : ScopeSpans) (hx : x.clean = true) (hy : y.clean = true) :
-    (mergeScopes x y).clean = true := by
-  simp only [ScopeSpans.clean, Bool.and_eq_true] at hx hy ⊢
-  simp [mergeScopes, List.all_append, hx.1, hx.2, hy.2]
-
-theorem mergeResources_clean (x y : ResourceSpans) (hx : x.clean = true) (hy : y.clean = true) :
-    (mergeResources x y).clean = true := by
-  simp only [ResourceSpans.clean, Bool.and_eq_true] at hx hy ⊢
-  simp [mergeResources, List.all_append, hx.1, hx.2, hy.2]
-
-theorem sortResourceScopes_clean (r r' : ResourceSpans) (hc : r.clean = true) (h : sortResourceScopes r = some r') :
-    r'.clean = true := by
-  simp only [sortResourceScopes] at h
-  split at h
-  · simp at h
-  · rename_i ss1 h1
-    split at h
-    · simp at h
-    · rename_i ss2 h2
-      simp at h; subst h
-      simp only [ResourceSpans.clean, Bool.and_eq_true] at hc
-      have p1 := sortStable_perm _ _ _ h1
-      have c1 : ∀ s ∈ ss1, s.clean = true := by
-        intro s hs
-        exact (List.all_eq_true.mp hc.2) s (p1.mem_iff.mp hs)
-      have c2 := mergeAdjacent_all cmpScopeSpans mergeScopes (fun s => s.clean = true) mergeScopes_clean ss1 ss2 c1 h2
-      simp only [ResourceSpans.clean, Bool.and_eq_true, hc.1, true_and]
-      rw [List.all_eq_true]
-      intro s hs
-      simp only [List.mem_map] at hs
-      obtain ⟨s0, hs0, rfl⟩ := hs
-      have := c2 s0 hs0
-      simp only [ScopeSpans.clean, Bool.and_eq_true] at this ⊢
-      exact ⟨this.1, all_of_perm (sortSpans_perm s0.spans) this.2⟩
-
-theorem mapOpt_all {α β : Type} (f : α → Option β) (P : α → Prop) (Q : β → Prop) (hf : ∀ a b, P a → f a = some b → Q b) :
-    ∀ (l : List α) (l' : List β), (∀ a ∈ l, P a) → mapOpt f l = some l' → ∀ b ∈ l', Q b
-  | [], l', _, h => by simp [mapOpt] at h; subst h; simp
-  | a :: t, l', hl, h => by
-    simp only [mapOpt] at h
-    split at h
-    · simp at h
-    · rename_i b hb
-      split at h
-      · simp at h
-      · rename_i t' ht
-        simp at h; subst h
-        intro z hz
-        simp only [List.mem_cons] at hz
-        cases hz with
-        | inl e => subst e; exact hf a _ (hl a (by simp)) hb
-        | inr hz => exact mapOpt_all f P Q hf t t' (fun x hx => hl x (by simp [hx])) ht z hz
-
-theorem sortTraces_clean (t t' : Traces) (hc : t.clean = true) (h : sortTraces t = some t') : t'.clean = true := by
-  simp only [sortTraces] at h
-  split at h
-  · simp at h
-  · rename_i rs1 h1
-    split at h
-    · simp at h
-    · rename_i rs2 h2
-      split at h
-      · simp at h
-      · rename_i rs3 h3
-        simp at h; subst h
-        have p1 := sortStable_perm _ _ _ h1
-        have c1 : ∀ r ∈ rs1, r.clean = true := by
-          intro r hr
-          exact (List.all_eq_true.mp hc) r (p1.mem_iff.mp hr)
-        have c2 := mergeAdjacent_all cmpResourceSpans mergeResources (fun r => r.clean = true) mergeResources_clean
-          rs1 rs2 c1 h2
-        have c3 := mapOpt_all sortResourceScopes (fun r => r.clean = true) (fun r => r.clean = true)
-          sortResourceScopes_clean rs2 rs3 c2 h3
-        simp only [Traces.clean]
-        rw [List.all_eq_true]
-        exact c3
-
 /-! ### records of both modes -/
 
 /-- the record the property asks for, from what a record shows of resource and scope -/
@@ -258,12 +174,11 @@ theorem flattenSpans_expected (b : Bool) (t : Traces) :
       = ((t.rss.map fun r => (r.scopes.map fun s => s.spans.map fun sp => expectedRecord r s sp b).flatten).flatten) := by
   simp only [flattenSpans, List.map_flatten, List.map_map, Function.comp_def]
 
-/-- the records written in either mode, for a clean batch -/
-theorem tracesToStef_records (sorted : Bool) (t : Traces) (hc : t.clean = true) :
+/-- the records written in either mode, for every batch -/
+theorem tracesToStef_records (sorted : Bool) (t : Traces) :
     (writeResourceSpans sorted t.rss {}).out.reverse
       = (flattenSpans t).map (fun x => expectedRecord x.1 x.2.1 x.2.2 sorted) := by
-  have h := writeResourceSpans_spec sorted t.rss {} hc init_nnz
-  rw [h.1, flattenSpans_expected]
+  rw [writeResourceSpans_spec sorted t.rss {}, flattenSpans_expected]
   simp
 
 end Stef.Otlp
